@@ -43,7 +43,7 @@ fn local_steal(e: &'static Engine, off: usize, pre: usize, owner_ops: &str, stea
                 }
                 batches.push((ret, rest));
             }
-            results.lock().unwrap()[s] = batches;
+            results.lock().unwrap_or_else(|e| e.into_inner())[s] = batches;
         });
     }
     let mut owner_got: Vec<Option<u32>> = vec![];
@@ -65,7 +65,7 @@ fn local_steal(e: &'static Engine, off: usize, pre: usize, owner_ops: &str, stea
         left.push(t.id());
     }
     // ---- oracle
-    let res = results.lock().unwrap().clone();
+    let res = results.lock().unwrap_or_else(|e| e.into_inner()).clone();
     let mut all: Vec<u32> = owner_got.iter().flatten().cloned().collect();
     all.extend(left.iter().cloned());
     for b in res.iter() {
@@ -130,7 +130,7 @@ fn raw_queue(e: &'static Engine, off: usize, pre: usize, pushes: usize, consumer
                     _ => unreachable!(),
                 }
             }
-            results.lock().unwrap()[c] = got;
+            results.lock().unwrap_or_else(|e| e.into_inner())[c] = got;
         });
     }
     for _ in 0..pushes {
@@ -151,7 +151,7 @@ fn raw_queue(e: &'static Engine, off: usize, pre: usize, pushes: usize, consumer
     while let Some(t) = q.pop() {
         left.push(t.id());
     }
-    let res = results.lock().unwrap().clone();
+    let res = results.lock().unwrap_or_else(|e| e.into_inner()).clone();
     let mut all: Vec<u32> = left.clone();
     for c in res.iter() {
         for b in c.iter() {
@@ -201,7 +201,7 @@ fn aba(e: &'static Engine) {
         while let Some(t) = mine.pop() {
             v.push(t.id());
         }
-        g2.lock().unwrap().extend(v);
+        g2.lock().unwrap_or_else(|e| e.into_inner()).extend(v);
     });
     let mut mine = vec![];
     for _ in 3..B {
@@ -226,14 +226,14 @@ fn aba(e: &'static Engine) {
         mine.push(t.id());
     }
     let mut all = mine.clone();
-    all.extend(got.lock().unwrap().iter().cloned());
+    all.extend(got.lock().unwrap_or_else(|e| e.into_inner()).iter().cloned());
     all.sort();
     let mut want: Vec<u32> = pushed.iter().map(|x| x % 200).collect();
     want.sort();
     if all != want {
         e.fail("exactly_once", &format!("pushed {} tasks, obtained {}: lost or duplicated", want.len(), all.len()));
     }
-    e.note(&format!("owner={} stealer={}", mine.len(), got.lock().unwrap().len()));
+    e.note(&format!("owner={} stealer={}", mine.len(), got.lock().unwrap_or_else(|e| e.into_inner()).len()));
 }
 
 fn mk_ls(off: usize, pre: usize, owner: &'static str, stealers: usize, steals: usize) -> Scenario {
